@@ -65,6 +65,20 @@ ClassifyUdp(seg, ctx) ==
             ELSE Cls("DNS", "any", "C14", "dns-unspecified")
       [] OTHER -> ClassifyDatagramLike(id, seg, ctx)
 
+(* Message-oriented responders (SSH, Gh0st, SMB, STUN) are handed the bytes buffered while  *)
+(* the signature was still undecided together with the segment that completes it (C10: the *)
+(* decision is the same however the leading bytes are cut): for that segment the message   *)
+(* is the stream so far.  Later segments are judged on their own.                          *)
+SplitWhole(before, seg) ==
+    LET s == before \o seg
+        id == RefId(s, FALSE)
+    IN /\ before # << >>
+       /\ id \in { "SSH", "GHOST", "SMB1", "SMB2", "STUN" }
+       /\ RefPos(s, FALSE) > Len(before)
+       /\ (id = "STUN" => Len(s) >= 8 /\ SubSeq(s, 5, 8) = << 33, 18, 164, 66 >>)
+
+AppMsg(transport, before, seg) == IF transport = "tcp" /\ SplitWhole(before, seg) THEN before \o seg ELSE seg
+
 ClassifyTcp(before, seg, ctx) ==
     LET s  == before \o seg
         id == RefId(s, FALSE)
@@ -86,13 +100,19 @@ ClassifyTcp(before, seg, ctx) ==
                  LET c  == RpcCall(s, 4)
                      rl == RmLen(s)
                      t2 == IF rl[1] = 0 /\ 4 + rl[2] > c.end THEN 4 + rl[2] ELSE c.end
-                 IN IF lb < c.hdrend /\ Len(s) >= t2
+                 IN IF ~RmLast(s) \/ rl[1] # 0
+                    THEN (* a fragment that is not the last of its record, or one announced as longer than *)
+                         (* 64 KiB: answering before the record is complete is allowed, not required      *)
+                         IF Len(s) < c.hdrend THEN Cls(id, "mustnot", "C11", "rpc-call-header-incomplete")
+                         ELSE Cls(id, "any", "C16", "rpc-non-final-or-oversized-fragment")
+                    ELSE IF lb < c.hdrend /\ Len(s) >= t2
                     THEN Cls(id, "must", IF lb = 0 THEN "C16" ELSE "C11", "rpc-call-completed-by-this-segment")
                     ELSE IF Len(s) < c.hdrend THEN Cls(id, "mustnot", "C11", "rpc-call-header-incomplete")
                     ELSE Cls(id, "any", "C16", "rpc-within-record")
             ELSE Cls(id, "any", "C16", "rpc-unspecified")
       [] id = "RPC_UDP" -> Cls(id, "any", "C16", "rpc-unframed-over-tcp")
       [] OTHER -> IF lb = 0 THEN ClassifyDatagramLike(id, seg, ctx)
+                  ELSE IF SplitWhole(before, seg) THEN ClassifyDatagramLike(id, s, ctx)
                   ELSE Cls(id, "any", "C10", "non-stream-protocol-split")
 
 Classify(transport, before, seg, ctx) ==
@@ -107,7 +127,7 @@ ResponderOf(transport, r) ==
     ELSE IF IsSmb2(r) THEN "SMB2"
     ELSE IF IsStunResponse(r) /\ StunLen(r) = Len(r) - 20 /\ StunMethod(r) = 1 THEN "STUN"
     ELSE IF transport = "udp" /\ IsRpcReply(r, 0) THEN "RPC"
-    ELSE IF IsRpcReply(r, 4) /\ RmLast(r) /\ RmLen(r) = P32(Len(r) - 4) THEN "RPC"
+    ELSE IF IsRpcReply(r, 4) /\ RmLen(r) = P32(Len(r) - 4) THEN "RPC"
     ELSE IF Len(r) >= 12 /\ DnsQR(r) = 1 THEN "DNS"
     ELSE "unknown"
 
@@ -124,13 +144,15 @@ ReplyTypedBy(transport, s) ==
 
 (* the source-port shifts the statements allow for this payload (C03, C15) *)
 AppPortShift(transport, before, seg) ==
-    IF before # << >> THEN { 0, 1 }
-    ELSE IF RefId(seg, transport = "udp") = "STUN"
-         THEN IF StunCleanRequest(seg) THEN (IF StunChangePort(seg) THEN { 1 } ELSE { 0 }) ELSE { 0, 1 }
+    LET m == AppMsg(transport, before, seg) IN
+    IF before # << >> /\ ~(transport = "tcp" /\ SplitWhole(before, seg)) THEN { 0, 1 }
+    ELSE IF RefId(m, transport = "udp") = "STUN" THEN StunShift(m)
          ELSE { 0 }
 
-RelationFails(c, transport, before, seg, ctx, rpl, aux) ==
-    LET s == before \o seg IN
+RelationFails(c, transport, before, seg0, ctx, rpl, aux) ==
+    LET s == before \o seg0
+        seg == AppMsg(transport, before, seg0)
+    IN
     CASE c.proto = "HTTP"  -> Http401Fails(rpl)
       [] c.proto = "SSH"   -> IF rpl = SSH_REPLY THEN {} ELSE { "ssh-exact-server-banner" }
       [] c.proto = "GHOST" -> GhostFails(rpl, aux.inflated)
@@ -143,14 +165,15 @@ RelationFails(c, transport, before, seg, ctx, rpl, aux) ==
       [] OTHER -> {}
 
 (* rpl = << >> means: no application data in response *)
-AppJudge(transport, before, done, seg, ctx, rpl, aux) ==
-    LET c == Classify(transport, before, seg, ctx)
+AppJudge(transport, before, done, seg0, ctx, rpl, aux) ==
+    LET c == Classify(transport, before, seg0, ctx)
         answered == rpl # << >>
-        s == before \o seg
+        s == before \o seg0
+        seg == AppMsg(transport, before, seg0)
         id == RefId(s, transport = "udp")
         who == IF answered THEN ResponderOf(transport, rpl) ELSE "nobody"
         (* reply-typed: the stream as a whole, or (message-oriented protocols) this segment alone *)
-        rt == ReplyTypedBy(transport, s) \cup (IF before # << >> THEN ReplyTypedBy("udp", seg) ELSE {})
+        rt == ReplyTypedBy(transport, s) \cup (IF before # << >> THEN ReplyTypedBy("udp", seg0) ELSE {})
     IN
     (IF c.ans = "mustnot" /\ answered
      THEN { << c.prop, "answered:" \o c.why >> }
@@ -161,7 +184,7 @@ AppJudge(transport, before, done, seg, ctx, rpl, aux) ==
                \cup (IF c.proto \in SigProtos THEN { << "C10", "unanswered:request-completing-signature" >> } ELSE {})
           ELSE {})
     \cup (IF c.ans = "must" /\ answered
-          THEN { << c.prop, t >> : t \in RelationFails(c, transport, before, seg, ctx, rpl, aux) }
+          THEN { << c.prop, t >> : t \in RelationFails(c, transport, before, seg0, ctx, rpl, aux) }
           ELSE {})
     (* a request the statements leave open may be answered or not - but if the protocol's own *)
     (* responder answers it, the answer still has to be one of that protocol: the parts of the *)
@@ -174,8 +197,8 @@ AppJudge(transport, before, done, seg, ctx, rpl, aux) ==
                                          THEN { << "C15", t >> : t \in StunSuccessFails(seg, rpl, ctx.ver, ctx.src, ctx.sport) }
                                          ELSE {}
                  [] c.proto = "RPC_UDP" -> { << "C16", t >> : t \in RpcReplyShellFails(seg, 0, rpl, 0) }
-                 [] c.proto = "RPC_TCP" -> IF transport = "tcp" /\ Len(before) = 0
-                                           THEN { << "C16", t >> : t \in RpcReplyShellFails(seg, 4, rpl, 4) }
+                 [] c.proto = "RPC_TCP" -> IF transport = "tcp"
+                                           THEN { << "C16", t >> : t \in RpcReplyShellFails(s, 4, rpl, 4) }
                                            ELSE IF transport = "udp"
                                            THEN (* a record-marked call in a datagram: framed or not, the answer echoes the call's XID *)
                                                 IF RpcReplyShellFails(seg, 4, rpl, 4) = {} \/ RpcReplyShellFails(seg, 4, rpl, 0) = {}
